@@ -99,7 +99,7 @@ class Gen:
     delta = []
     if r.random() < 0.3:
       for _ in range(r.randrange(1, 3)):
-        delta.append({'t': None if r.random() < 0.6 else r.choice([1, 2, 3, 99]), 'kv': self.kv()})
+        delta.append({'t': None if r.random() < 0.6 else r.choice([1, 2, 3, 99, 0]), 'kv': self.kv()})    # 0: no trial ever has this id
     return {'kind': 'ok', 'sugg': sugg, 'delta': delta}
 
   def one(self, first=False):
